@@ -3,6 +3,7 @@ package ref
 import (
 	"encoding/json"
 	"fmt"
+	"io"
 	"strings"
 )
 
@@ -233,6 +234,10 @@ func ParsePatch(text string) ([]Op, error) {
 	dec := json.NewDecoder(strings.NewReader(text))
 	if err := dec.Decode(&raw); err != nil {
 		return nil, fmt.Errorf("patch is not an array of objects: %v", err)
+	}
+	// a JSON Patch document is one JSON document: nothing but white space may follow the array
+	if _, err := dec.Token(); err != io.EOF {
+		return nil, fmt.Errorf("patch text continues after the array (%v)", err)
 	}
 	if raw == nil {
 		return nil, fmt.Errorf("patch is null, not an array")
